@@ -173,15 +173,21 @@ func Run(cfg Config) int {
 	var failed []*vc.Obligation
 	var slow []map[string]interface{}
 	solverSecs := 0.0
+	skipped := 0
 	for _, o := range obls {
 		solverSecs += o.Seconds
 		ok := (!o.Vacuity && o.Status == "unsat") || (o.Vacuity && o.Status == "sat")
 		if ok {
 			discharged++
 			bySolver[o.Solver]++
+		} else if o.Status == "skipped" {
+			skipped++
 		} else {
 			failed = append(failed, o)
 		}
+	}
+	if skipped > 0 {
+		fmt.Printf("note: %d obligations were not attempted after %d failures\n", skipped, len(failed))
 	}
 	sort.Slice(obls, func(i, j int) bool { return obls[i].Seconds > obls[j].Seconds })
 	for i := 0; i < len(obls) && i < 10; i++ {
